@@ -5,8 +5,10 @@ import importlib
 PROPERTY_RULES = {
     "C05": ["r_b1", "r_o3"],
     "C06": ["r_b1", "r_o3"],
+    "C09": ["r_c4"],
     "C10": ["r_c2", "r_e1"],
     "C11": ["r_c2", "r_e1"],
+    "C12": ["r_c4", "r_e1"],
     "C14": ["r_d1"],
     "C16": ["r_e1"],
 }
@@ -14,6 +16,10 @@ PROPERTY_RULES = {
 LEVEL = {"C14": "proof"}
 
 CLAUSES = {
+    "C09": "Chain touches its second half only on paths where the first is exhausted or fully accounted for (incl. chunks_vectored); "
+           "Take truncates by min(inner, limit) and pairs every inner advance with limit -= same operand",
+    "C12": "Take/Limit: remaining = min(inner, limit), chunk truncated by the same min, guarded paired bookkeeping; Chain order for both traits; "
+           "Reader/Writer transfer exactly min(available, requested), return it, never construct Err; accessors are plain field accessors",
     "C05": "free/take-over decisions are taken on the result of the atomic RMW itself (fetch_sub == 1; CAS 1->0; publishing CAS of a fresh control block "
            "whose loser uses the winner's value); every take-over is dominated by a uniqueness test",
     "C06": "every atomic site has at least the ordering its role requires (decrement >= Release; Acquire before free; Acquire uniqueness test before "
@@ -34,6 +40,8 @@ LEVEL_NOTE = {
     "C14": "trusted: rustc type checking/trait resolution, std slice comparison and hash impls, std views (as_bytes, deref, [..]); views show the contents (C01).",
 }
 TECHNIQUE = {
+    "C09": "path rule over MIR CFG: every entry->call path to a call on Chain.b carries an a-exhausted witness; shape rules for Take",
+    "C12": "shape + path rules over MIR for the adapters' arithmetic (min, truncation, paired decrement, Chain order, Reader/Writer transfer)",
     "C05": "role classification of all atomic sites + dominance of free/take-over events by the deciding RMW edge (MIR CFG dominators, interprocedural over call sites)",
     "C06": "ordering-by-role conformance at all atomic sites (release/acquire recipe) + dominating Acquire-guard analysis for take-over events",
     "C14": "MIR orientation/delegation analysis over rustc-resolved callees (custom rustc_private driver)",
